@@ -10,7 +10,7 @@ for d in seeded/${1:-*}/; do
   id=$(basename $d)
   checks=$(/venv/bin/python -c "import json;print(' '.join(json.load(open('$d/meta.json'))['caught_by_quick_checks']))")
   first=$(echo $checks | cut -d' ' -f1)
-  git -C $WT checkout -q -- .
+  git -C $WT reset -q --hard; git -C $WT clean -fdq
   if ! git -C $WT apply /verif/$d/patch.diff 2>/dev/null && ! git -C $WT apply --3way /verif/$d/patch.diff 2>/dev/null; then echo "$id PATCH-DOES-NOT-APPLY"; continue; fi
   out=$(PTERA_SRC=$WT VERIF_JOBS=${SEED_JOBS:-8} timeout 1800 ./check $first --tier quick 2>&1); rc=$?
   n=$(echo "$out" | grep -c '^VIOLATION')
